@@ -55,7 +55,8 @@ def generate(seed: int, tier: str) -> dict:
             op = {"op": "set", "path": rng.choice(gen.FRESH), "value": og.fresh_value()}
         case["ops"] = [op]
     elif law == "L2":
-        name = rng.choice(gen.FRESH)
+        # fresh names, some equal to segment names used inside attrpath bindings (`meta.x = …;` vs a new `x`)
+        name = rng.choice(gen.FRESH + ["x", "y", "z", "t", "i"])
         depth = 0
         if rng.random() < 0.5:
             depth = rng.randint(1, max(1, nl))
